@@ -14,9 +14,12 @@
 (*   Returned{...} | Hung                     the call returned / had not returned when the      *)
 (*                                            watchdog (5 s) expired                             *)
 (* UDP relay (iocopy.UDP)                                                                        *)
-(*   UStart{t, u, cut, how, sock, via}        datagram sizes tunnel->UDP and UDP->tunnel, the    *)
-(*                                            byte offset at which the tunnel stream ends, by    *)
-(*                                            "eof" or "err"                                      *)
+(*   UStart{t, u, cut, how, sock, via, sc, lossy}  datagram sizes tunnel->UDP and UDP->tunnel,   *)
+(*                                            the byte offset at which the tunnel stream ends,   *)
+(*                                            by "eof" or "err"; sc = slow-write scenario tag      *)
+(*                                            (tunnelWrite: a tunnel Write is held while more      *)
+(*                                            datagrams arrive, ...); lossy = tunnel Writes         *)
+(*                                            failed transiently, gaps are accepted                  *)
 (*   UDeliver{idx, len, ok}                   the UDP peer received a datagram (idx from payload) *)
 (*   USent{idx}                               the UDP peer sent its idx-th datagram               *)
 (*   TRecord{idx, len, ok}                    a whole [len][datagram] record appeared on the tunnel *)
@@ -53,7 +56,7 @@ B0 == [sent |-> [e \in Ends |-> 0], got |-> [e \in Ends |-> 0],
        wr |-> [e \in Ends |-> "open"], rdClosed |-> [e \in Ends |-> FALSE],
        dirEnded |-> [d \in {"AB", "BA"} |-> FALSE], rcw |-> [e \in Ends |-> FALSE],
        order |-> "", obs |-> FALSE]
-U0 == [t |-> <<>>, u |-> <<>>, cut |-> 0, how |-> "eof", ugot |-> 0, tgot |-> 0, usent |-> 0, ended |-> FALSE]
+U0 == [t |-> <<>>, u |-> <<>>, cut |-> 0, how |-> "eof", ugot |-> 0, tgot |-> 0, usent |-> 0, ended |-> FALSE, sc |-> "", lossy |-> FALSE]
 
 Init == l = 1 /\ viol = {} /\ mode = "none" /\ b = B0 /\ ud = U0
 
@@ -127,18 +130,20 @@ TrHungB ==
 
 \* ---- UDP relay ---------------------------------------------------------------------------------
 TrUStart == /\ Is("UStart") /\ Step /\ mode' = "udp"
-            /\ ud' = [U0 EXCEPT !.t = Ev.t, !.u = Ev.u, !.cut = Ev.cut, !.how = Ev.how]
+            /\ ud' = [U0 EXCEPT !.t = Ev.t, !.u = Ev.u, !.cut = Ev.cut, !.how = Ev.how,
+                                 !.sc = IF Has("sc") THEN Ev.sc ELSE "", !.lossy = IF Has("lossy") THEN Ev.lossy ELSE FALSE]
             /\ Keep(viol) /\ Keep(b)
 
 UKey == "udp:" \o ud.how \o ":cut=" \o CutClass(ud.t, ud.cut)
+Sc == IF ud.sc = "" THEN "" ELSE ":" \o ud.sc
 
 TrUDeliver ==
   /\ Is("UDeliver") /\ Step
   /\ LET i == Ev.idx
          sz == IF i \in 1..Len(ud.t) THEN SizeClass(ud.t[i]) ELSE "none"
-         bad == (IF i # ud.ugot + 1 THEN {V("Datagram", "t2u:order:size=" \o sz)} ELSE {})
-           \cup (IF i \in 1..Len(ud.t) /\ Ev.len # ud.t[i] THEN {V("Datagram", "t2u:boundary:size=" \o sz)} ELSE {})
-           \cup (IF ~Ev.ok THEN {V("Datagram", "t2u:content:size=" \o sz)} ELSE {})
+         bad == (IF i # ud.ugot + 1 THEN {V("Datagram", "t2u:order:size=" \o sz \o Sc)} ELSE {})
+           \cup (IF i \in 1..Len(ud.t) /\ Ev.len # ud.t[i] THEN {V("Datagram", "t2u:boundary:size=" \o sz \o Sc)} ELSE {})
+           \cup (IF ~Ev.ok THEN {V("Datagram", "t2u:content:size=" \o sz \o Sc)} ELSE {})
            \cup (IF i \notin 1..Whole(ud.t, ud.cut) THEN {V("Datagram", "t2u:invented:" \o UKey)} ELSE {})
      IN /\ viol' = viol \cup bad
         /\ ud' = [ud EXCEPT !.ugot = IF i = @ + 1 THEN i ELSE @]
@@ -151,17 +156,18 @@ TrTRecord ==
   /\ Is("TRecord") /\ Step
   /\ LET i == Ev.idx
          sz == IF i \in 1..Len(ud.u) THEN SizeClass(ud.u[i]) ELSE "none"
-         bad == (IF i # ud.tgot + 1 THEN {V("Datagram", "u2t:order:size=" \o sz)} ELSE {})
-           \cup (IF i \in 1..Len(ud.u) /\ Ev.len # ud.u[i] THEN {V("Datagram", "u2t:boundary:size=" \o sz)} ELSE {})
-           \cup (IF ~Ev.ok THEN {V("Datagram", "u2t:content:size=" \o sz)} ELSE {})
-           \cup (IF i \notin 1..ud.usent THEN {V("Datagram", "u2t:invented")} ELSE {})
+         inOrder == IF ud.lossy THEN i > ud.tgot ELSE i = ud.tgot + 1   \* duplicates / reordering; gaps too unless lossy
+         bad == (IF ~inOrder THEN {V("Datagram", "u2t:order:size=" \o sz \o Sc)} ELSE {})
+           \cup (IF i \in 1..Len(ud.u) /\ Ev.len # ud.u[i] THEN {V("Datagram", "u2t:boundary:size=" \o sz \o Sc)} ELSE {})
+           \cup (IF ~Ev.ok THEN {V("Datagram", "u2t:content:size=" \o sz \o Sc)} ELSE {})
+           \cup (IF i \notin 1..ud.usent THEN {V("Datagram", "u2t:invented" \o Sc)} ELSE {})
      IN /\ viol' = viol \cup bad
-        /\ ud' = [ud EXCEPT !.tgot = IF i = @ + 1 THEN i ELSE @]
+        /\ ud' = [ud EXCEPT !.tgot = IF inOrder THEN i ELSE @]
   /\ Keep(mode) /\ Keep(b)
 
-TrTJunk == /\ Is("TJunk") /\ Step /\ viol' = viol \cup {V("Datagram", "u2t:partialRecord")}
+TrTJunk == /\ Is("TJunk") /\ Step /\ viol' = viol \cup {V("Datagram", "u2t:partialRecord" \o Sc)}
            /\ Keep(ud) /\ Keep(mode) /\ Keep(b)
-TrUFlushTimeout == /\ Is("UFlushTimeout") /\ Step /\ viol' = viol \cup {V("Flush", "u2t:notOnTunnelAfter2s")}
+TrUFlushTimeout == /\ Is("UFlushTimeout") /\ Step /\ viol' = viol \cup {V("Flush", "u2t:notOnTunnelAfter2s" \o Sc)}
                    /\ Keep(ud) /\ Keep(mode) /\ Keep(b)
 TrTunnelEnd == /\ Is("TunnelEnd") /\ Step /\ ud' = [ud EXCEPT !.ended = TRUE]
                /\ Keep(viol) /\ Keep(mode) /\ Keep(b)
